@@ -251,6 +251,15 @@ def execute(w, with_subprocess=None):
     data = input_bytes(w)
     api = run_api(w, data)
     out = []
+    # Short writes are legal and must lose nothing: under such a plan "the file the API calls would write"
+    # is the complete, fault-free output.
+    faults_ = w.get("output_faults") or []
+    if faults_ and all(f["kind"] == "raw_short_write" for f in faults_) and api["exc"] is None:
+        free = run_api({**w, "output_faults": None}, data)
+        if free["exc"] is None and free["bytes"] != api["bytes"]:
+            out.append(_v("partial_content_reported_as_success", f"API: short writes on the output lost data "
+                          f"({len(api['bytes'] or b'')} of {len(free['bytes'] or b'')} bytes) without an error", w, "api"))
+            api = {**api, "bytes": free["bytes"]}
     pre = PRE if w.get("target_pre") else None
     et = type(api["exc"]).__name__ if api["exc"] is not None else None
     if et in ("PrepareDumpError", "FileFormatError") and (api["bytes"] != pre or api["opened_w"]):
@@ -289,6 +298,18 @@ def gen_workload(rng, tier):
             w["output_name"], w["outfmt"] = rng.choice(["result.txt", "out", "o.dat2"]), om
         if rng.random() < 0.5:
             w["input_name"], w["infmt"] = rng.choice(["input.txt", "in"]), w["infmt"] or mod
+    r = rng.random()
+    if r < 0.2:
+        # directory components (patterns must be matched against the base name only)
+        d = rng.choice(["sub", "POSCAR.d", "my.FCIDUMP.runs", "x.cube", "a/b", "CHGCAR_old", "traj.xyz"])
+        if rng.random() < 0.5:
+            w["output_name"] = d + "/" + w["output_name"]
+        else:
+            w["input_name"] = d + "/" + w["input_name"]
+    elif r < 0.28:
+        # names in which one pattern is a prefix/suffix of another
+        w["output_name"] = rng.choice(["POSCAR.xyz", "out.xyz.fchk", "FCIDUMP.xyz", "CHGCAR.cube", "x.molden.input.xyz"])
+        w["outfmt"] = None
     if rng.random() < 0.05:
         w["input_name"] = rng.choice(["in.unknown", "in.xyz", "in.fchk"])
     r = rng.random()
